@@ -14,6 +14,7 @@ be an ENABLED step of this model in the state reached by the preceding trace.
 -/
 import NeoModel.Model.Dbft
 import NeoModel.Proofs.DbftRun
+import NeoModel.Proofs.DbftLock
 namespace NeoModel.Dbft
 
 /-! ### 1. Agreement -/
@@ -37,7 +38,7 @@ theorem agreement_at (c : Cfg) (hn : 0 < c.n) (s : State) (hr : Reachable c s) (
   obtain ⟨m2, e2⟩ := blockAt_some hb'
   exact agreement c hn s hr i j b b' m1 m2 (by omega)
 
-private def c4 : Cfg := { n := 4 }
+private abbrev c4 : Cfg := cfg4
 private def blk (h v p : Nat) : Block := ⟨h, v, p⟩
 private def it (x : Item) : Msg := .item x
 
@@ -201,5 +202,56 @@ theorem liveness_sync_partial_7 :
     (run c7 init (fairRounds c7 1 (fun r => 10 + r) 2)).map
       (fun s => (List.range 7).map (fun i => ((s.nodes i).height, (s.nodes i).view, (s.nodes i).chain.map (·.p)))) =
     some ((List.range 7).map (fun _ => (3, 0, [11, 10]))) := by decide
+
+/-! ### 5. What is false: liveness after an asynchronous prefix (the dBFT 2.0 liveness lock) -/
+
+/-- A schedule among 4 honest validators that ends in the lock: validator 1 proposes, 0 and 2 respond
+and (having seen each other's responses) sign, but before signing 0 had asked for a view change together
+with 1 and 3, who collect the three ChangeViews and move to view 1. Nothing is lost for ever: every
+payload not delivered here is still in flight and may be delivered later. -/
+def lockSched : List Action :=
+  let b := lockB
+  [.sendPrepReq 1 7,
+   .deliver 0 (it (.prepReq 1 b)), .deliver 2 (it (.prepReq 1 b)), .deliver 3 (it (.prepReq 1 b)),
+   .sendPrepResp 0 b, .sendPrepResp 2 b,
+   .deliver 0 (it (.prepResp 2 b)), .deliver 2 (it (.prepResp 0 b)),
+   .timeout 0, .sendChangeView 0, .timeout 1, .sendChangeView 1, .timeout 3, .sendChangeView 3,
+   .deliver 1 (it (.changeView 0 1 0 1)), .deliver 1 (it (.changeView 3 1 0 1)), .changeView 1 1,
+   .deliver 3 (it (.changeView 0 1 0 1)), .deliver 3 (it (.changeView 1 1 0 1)), .changeView 3 1,
+   .sendCommit 0 b, .sendCommit 2 b]
+
+private def lockedOpt : Option State → Bool
+  | some s => decide (Lock s)
+  | none => false
+
+private theorem lockSched_locks : lockedOpt (run cfg4 init lockSched) = true := by decide
+
+/-- C19 (negation witness for unrestricted liveness; the replay of the known finding
+`dbft20-liveness-lock`): there is a reachable state of 4 validators, none of them faulty, from which NO
+schedule whatsoever — all payloads delivered, any timeouts, any sends — ever decides height 1: validators
+0 and 2 signed in view 0 and are frozen there, 1 and 3 are in view 1 and can never gather M = 3. So
+"blocks keep being produced" holds for synchronous runs (`liveness_sync_partial_*`) but not for runs
+that become synchronous after an asynchronous prefix. -/
+theorem liveness_lock_witness :
+    ∃ s, run cfg4 init lockSched = some s ∧
+      ∀ (as : List Action) (s' : State), run cfg4 s as = some s' →
+        ∀ i, i < 4 → (s'.nodes i).height = 1 ∧ (s'.nodes i).chain = [] := by
+  have h := lockSched_locks
+  cases hr : run cfg4 init lockSched with
+  | none => rw [hr] at h; simp [lockedOpt] at h
+  | some s =>
+    rw [hr] at h
+    have h : Lock s := by simpa [lockedOpt] using h
+    refine ⟨s, rfl, ?_⟩
+    intro as s' hrun i hi
+    have hreach : Reachable cfg4 s := run_reachable cfg4 init lockSched s Reachable.init hr
+    exact (lock_forever s hreach h as s' hrun).fresh i hi
+
+-- non-vacuity of the hypothesis: in the locked state plenty of steps are still enabled (validator 3
+-- can ask for view 2, validator 0 can re-send what it holds, payloads can be delivered) — just no accept
+example : (run cfg4 init lockSched).map (fun s =>
+    (decide (Enabled cfg4 s (.sendChangeView 3)), decide (Enabled cfg4 s (.sendRecMsg 0 [.commit 0 lockB])),
+     decide (Enabled cfg4 s (.deliver 1 (it (.commit 0 lockB)))), decide (Enabled cfg4 s (.accept 0 lockB)))) =
+    some (true, true, true, false) := by decide
 
 end NeoModel.Dbft
